@@ -36,5 +36,5 @@ package pathbadger
 //@ func badgerBatch.Commit
 //@   props C06 C12
 //@   requires ba != nil
-//@   ensures-local err == nil && old(ba.seqNo) != 0 ==> !old(ba.chunk)
-//@   note a successfully committed batch that wrote its nodes under a non-zero sequence number has recorded the root's updated-nodes index (which only non-chunk batches do). FAILS for a chunk batch with a non-zero sequence number - reachable by aborting a multipart restore and starting it again (StartMultipartInsert reserves the NEXT sequence number of the version each time): known finding F8
+//@   precall pathbadger\.metadata\)\.setPendingRootSeqNo$ :: argIs(2, ba.seqNo) && (ba.seqNo == 0 || !ba.chunk)
+//@   note a batch that records a non-zero sequence number for its root (its nodes went to pending keys) has recorded the root's updated-nodes index (which only non-chunk batches do). FAILS for a chunk batch with a non-zero sequence number - reachable by aborting a multipart restore and starting it again (StartMultipartInsert reserves the NEXT sequence number of the version each time): known finding F8
